@@ -1,4 +1,5 @@
 import StunVerif.Props.C08
+import StunVerif.Props.Utf8
 #print axioms StunVerif.C08.decode_iff
 #print axioms StunVerif.C08.decode_fields
 #print axioms StunVerif.C08.wrong_type
@@ -13,3 +14,7 @@ import StunVerif.Props.C08
 #print axioms StunVerif.C08.src_decode_ranges
 #print axioms StunVerif.C08.src_field_constants
 #print axioms StunVerif.C08.accept_in_range
+#print axioms StunVerif.Utf8.utf8ValidF_iff
+#print axioms StunVerif.Utf8.utf8Valid_iff
+#print axioms StunVerif.Utf8.head_of_encode
+#print axioms StunVerif.Utf8.encode_injective
